@@ -1,7 +1,13 @@
 """C18 — healing and tool loops stop within their budgets against any generator.
 
 Engine B (mc/choice.py): every answer of the environment is a choice point.  RAISE = one of four exception
-flavours (message, EMPTY message, StopIteration, KeyError('')), each its own answer.
+flavours (message, EMPTY message, StopIteration, KeyError('')), each its own answer.  In the exception-class
+configurations (see XCLASSES / configs()) RAISE additionally ranges over every builtin Exception class that can be
+built with and without a message (TypeError, ValueError, KeyError, AttributeError, LookupError, RuntimeError,
+AssertionError, OSError, TimeoutError, StopIteration, Exception itself, ...), each with and without message, as a
+single deviation from the always-succeeding and from the never-succeeding adversary of every loop.
+Every environment callable accepts any call signature, so every invocation -- also one made with other arguments
+than the documented ones -- is counted against the budget.
   heal   : ChaperoneLoop.heal      generator call   -> valid | junk | schema-invalid | echo of error context | "" |
                                                        "null" | same output as before | RAISE
   swarm  : RegenerativeSwarm.supervise
@@ -30,6 +36,7 @@ statement bounds calls, not exception handling) but the call counts must hold at
 """
 from __future__ import annotations
 
+import builtins
 import contextlib
 import inspect
 import json
@@ -57,6 +64,46 @@ FLAVOURS = ("msg", "empty", "stopiter", "keyerr")
 RAISES = tuple(f"raise:{f}" for f in FLAVOURS)
 FALSY = {"msg": None, "empty": "", "stopiter": 0, "keyerr": []}  # falsy-but-legal return values, by flavour
 
+# Exception classes that library code plausibly special-cases (brief item 9) ...
+REQUIRED_XCLASSES = ("TypeError", "ValueError", "KeyError", "AttributeError", "LookupError", "RuntimeError",
+                     "AssertionError", "OSError", "TimeoutError", "StopIteration", "Exception")
+
+
+def _builtin_exception_classes():
+    """... generalised to every builtin Exception class (no warnings, no aliases) that can be constructed both without
+    arguments and with a single message, in name order."""
+    out = []
+    for name in sorted(vars(builtins)):
+        c = getattr(builtins, name)
+        if not (isinstance(c, type) and issubclass(c, Exception)) or issubclass(c, Warning) or c.__name__ != name:
+            continue
+        try:
+            c()
+            c("message")
+        except Exception:  # noqa: BLE001  (needs structured arguments: UnicodeDecodeError, ExceptionGroup ...)
+            continue
+        out.append(name)
+    missing = [n for n in REQUIRED_XCLASSES if n not in out]
+    if missing:
+        raise common.HarnessError(f"builtin exception classes not constructible: {missing}")
+    return tuple(out)
+
+
+XCLASSES = _builtin_exception_classes()
+XRAISES = RAISES + tuple(f"raise:cls.{n}" for n in XCLASSES) + tuple(f"raise:cls.{n}.msg" for n in XCLASSES)
+
+
+def _kinds(base, cfg, first_key=None):
+    """The answer alphabet of one choice point under configuration cfg: in exception-class configurations the raising
+    answers range over XRAISES; cfg[first_key] names the default (index 0) answer."""
+    kinds = base
+    if cfg.get("xcls"):
+        kinds = tuple(k for k in base if not k.startswith("raise")) + XRAISES
+    first = cfg.get(first_key) if first_key else None
+    if first:
+        kinds = (first,) + tuple(k for k in kinds if k != first)
+    return kinds
+
 
 class Thrower:
     """Raises the environment's exceptions and remembers them, so that an exception leaving the library can be
@@ -66,7 +113,11 @@ class Thrower:
         self.raised = []
 
     def throw(self, flavour, msg):
-        if flavour == "msg":
+        if flavour.startswith("cls."):
+            parts = flavour.split(".")
+            cls = getattr(builtins, parts[1])
+            e = cls(msg) if len(parts) > 2 else cls()
+        elif flavour == "msg":
             e = EnvError(msg)
         elif flavour == "empty":
             e = EnvError()
@@ -162,13 +213,17 @@ def _heal_session(cfg, ch, v):
     thrower = Thrower()
     st = {"calls": [], "budget": 0, "last": None}
     chap = CHAPERONES[chap_kind](silent=silent)
+    gen_kinds = _kinds(GEN_KINDS, cfg, "gen_first")
 
-    def generator(prompt, error_context=None):
+    def generator(*args, **kwargs):  # any signature: every invocation counts
+        error_context = args[1] if len(args) > 1 else kwargs.get("error_context")
         calls = st["calls"]
         n = len(calls)
         if n >= st["budget"] + SLACK:
             raise choice.TooManyChoices("generator")
-        kind = GEN_KINDS[ch.pick(len(GEN_KINDS), "gen")]
+        if len(args) != 2 or kwargs:
+            st["odd_signature"] = True
+        kind = gen_kinds[ch.pick(len(gen_kinds), "gen")]
         out = None
         if kind == "valid":
             out = json.dumps({"item": f"widget{n}", "price": n + 0.5})
@@ -248,6 +303,8 @@ def _heal_session(cfg, ch, v):
                 v.append(("obs:heal-retry-context-lacks-output-prefix", f"retry {k}"))
         if calls and calls[0][1] is not None:
             v.append(("obs:heal-first-call-has-error-context", repr(calls[0][1])[:80]))
+        if st.pop("odd_signature", False):
+            v.append(("obs:heal-generator-called-with-another-signature", ""))
 
         outcome = None
         if result is not None:
@@ -326,11 +383,13 @@ class _Worker:
         self.steps = 0
         self.last = None
 
-    def step(self, task):
+    def step(self, *args, **kwargs):  # any signature: every invocation counts
+        task = args[0] if args else kwargs.get("task")
         env = self.env
         if self.steps >= env["S"] + SLACK:
             raise choice.TooManyChoices("worker.step")
-        k = STEP_KINDS[env["ch"].pick(len(STEP_KINDS), "step")]
+        kinds = env["step_kinds"]
+        k = kinds[env["ch"].pick(len(kinds), "step")]
         self.steps += 1
         env["nsteps"] += 1
         if k.startswith("raise:"):
@@ -355,12 +414,15 @@ def _swarm_session(cfg, ch, v):
     R, S, ncalls = cfg["max_regenerations"], cfg["max_steps"], cfg.get("calls", 1)
     thrower = Thrower()
     env = {"ch": ch, "S": S, "R": R, "nsteps": 0, "workers": [], "last_output": None, "summaries": 0,
-           "thrower": thrower, "record": cfg.get("record", True)}
+           "thrower": thrower, "record": cfg.get("record", True), "step_kinds": _kinds(STEP_KINDS, cfg, "step_first")}
+    factory_kinds = _kinds(FACTORY_KINDS, cfg)
+    summary_kinds = _kinds(SUMMARY_KINDS, cfg)
 
-    def factory(name, hints):
+    def factory(*args, **kwargs):  # any signature: every invocation counts
+        name = args[0] if args else kwargs.get("name", f"worker_{len(env['workers']) + 1}")
         if len(env["workers"]) >= env["R"] + 1 + SLACK:
             raise choice.TooManyChoices("factory")
-        k = FACTORY_KINDS[ch.pick(len(FACTORY_KINDS), "factory")]
+        k = factory_kinds[ch.pick(len(factory_kinds), "factory")]
         if k != "worker":
             env["workers"].append(None)
             thrower.throw(k[6:], f"cannot spawn {name}")
@@ -368,9 +430,10 @@ def _swarm_session(cfg, ch, v):
         env["workers"].append(w)
         return w
 
-    def summariser(memory):
+    def summariser(*args, **kwargs):
+        memory = args[0] if args else next(iter(kwargs.values()), None)
         env["summaries"] += 1
-        k = SUMMARY_KINDS[ch.pick(len(SUMMARY_KINDS), "summary")]
+        k = summary_kinds[ch.pick(len(summary_kinds), "summary")]
         if k.startswith("raise:"):
             thrower.throw(k[6:], "summariser failed")
         if k == "empty-list":
@@ -379,7 +442,7 @@ def _swarm_session(cfg, ch, v):
             return None
         if k == "stock":
             return STOCK_SUMMARIZER(memory)
-        return [f"previous worker made {len(memory.output_history)} attempts"]
+        return [f"previous worker made {len(getattr(memory, 'output_history', ()))} attempts"]
 
     kw = {}
     if R is not None:
@@ -466,12 +529,13 @@ class _Provider:
     def is_available(self):
         return True
 
-    def complete(self, prompt, config=None):
+    def complete(self, *args, **kwargs):  # any signature: every invocation counts
         env = self.env
         if env["plain"] >= 1 + SLACK:
             raise choice.TooManyChoices("complete")
         env["plain"] += 1
-        k = COMPLETE_KINDS[env["ch"].pick(len(COMPLETE_KINDS), "complete")]
+        kinds = env["complete_kinds"]
+        k = kinds[env["ch"].pick(len(kinds), "complete")]
         if k.startswith("raise:"):
             env["thrower"].throw(k[6:], "completion failed")
         content = "" if k == "blank" else f"final answer {env['plain']}"
@@ -479,7 +543,7 @@ class _Provider:
 
 
 class _ToolProvider(_Provider):
-    def complete_with_tools(self, prompt, tools, config=None):
+    def complete_with_tools(self, *args, **kwargs):  # any signature: every invocation counts
         env = self.env
         if env["rounds"] >= env["M"] + SLACK:
             raise choice.TooManyChoices("complete_with_tools")
@@ -515,14 +579,20 @@ class _ToolProvider(_Provider):
 def _tools_session(cfg, ch, v):
     M, flavour, rot = cfg["max_iterations"], cfg.get("flavour", "msg"), cfg.get("rot", 0)
     thrower = Thrower()
+    round_kinds = _kinds(ROUND_KINDS, cfg)
+    tool_kinds = _kinds(TOOL_KINDS, cfg)
     env = {"ch": ch, "M": DEFAULT_MAX_ITERATIONS if M is None else M, "flavour": flavour, "thrower": thrower,
-           "round_kinds": ROUND_KINDS[rot:] + ROUND_KINDS[:rot], "last_calls": None}
+           "round_kinds": round_kinds[rot:] + round_kinds[:rot], "complete_kinds": _kinds(COMPLETE_KINDS, cfg),
+           "last_calls": None}
 
-    def probe(x=0):
+    def probe(*args, **kwargs):  # any signature: every execution counts
+        x = kwargs.get("x", args[0] if args else 0)
         env["tool_runs"] += 1
-        a = TOOL_KINDS[ch.pick(len(TOOL_KINDS), "tool")]
+        a = tool_kinds[ch.pick(len(tool_kinds), "tool")]
         if a == "raises":
             thrower.throw(flavour, "tool failed")
+        if a.startswith("raise:"):
+            thrower.throw(a[6:], "tool failed")
         if a == "falsy":
             return FALSY[flavour]
         return x * 2
@@ -710,6 +780,29 @@ def configs(tier):
             cfg["max_dev"] = dev
             cfg["split"] = est >= 500
             out.append(cfg)
+    # Exception-class configurations: the raising answers range over XRAISES (every builtin exception class, with
+    # and without message); every single deviation from the loop's always-succeeding adversary and from its
+    # never-succeeding adversary, for every limit setting (x every option variant where that is cheap).
+    x = {"xcls": True, "max_dev": 1, "split": False}
+    for m in list(range(top + 1)) + [None]:
+        for chap in ("tracing", "stock", "blank"):
+            for var in HEAL_VARIANTS:
+                for first in ("valid", "junk"):
+                    out.append({"harness": "heal", "max_retries": m, "chaperone": chap, **var, "gen_first": first, **x})
+    for R in list(range(top + 1)) + [None]:
+        for S in list(range(top + 1)) + [None]:
+            if (R is None) != (S is None):
+                continue
+            for var in SWARM_VARIANTS[:2] + SWARM_VARIANTS[-1:]:
+                for first in ("junk", "marker0"):
+                    out.append({"harness": "swarm", "max_regenerations": R, "max_steps": S, **var, "step_first": first, **x})
+    for M in list(range(top + 1)) + [None]:
+        for var in TOOLS_VARIANTS:
+            cfg = {"harness": "tools", "max_iterations": M, "auto_execute": True, "tools": True, "provider_tools": True}
+            cfg.update(var)
+            live = cfg["tools"] and cfg["provider_tools"]
+            for rot in (0, 1) if live else (0,):  # default round answer: 'no tool calls' / 'one call' (always requesting)
+                out.append({**cfg, "rot": rot, **x})
     return out
 
 
@@ -835,7 +928,7 @@ def run(ctx):
     bounded_by = {}
     for cfg in bounded:
         lim = {k: cfg[k] for k in ("max_retries", "max_regenerations", "max_steps", "max_iterations") if k in cfg}
-        key = f"{cfg['harness']} {lim} calls={cfg.get('calls', 1)} max_dev={cfg['max_dev']}"
+        key = f"{cfg['harness']} {lim} calls={cfg.get('calls', 1)} max_dev={cfg['max_dev']}{' exception-classes' if cfg.get('xcls') else ''}"
         bounded_by[key] = bounded_by.get(key, 0) + 1
     for k in sorted(notes):
         ctx.note(f"{k[4:]}: seen in {notes[k]} executions (not required by the statement; observation only)")
@@ -853,14 +946,18 @@ def run(ctx):
         distinct_nontrivial=nontrivial,
         rule="engine B: every sequence of environment answers (generator output kind, factory/step/summariser "
         "behaviour, provider round kind, tool and completion outcome; each 'raises' in four exception flavours) is "
-        "executed on fresh real objects for every budget setting crossed with every option variant; states = nodes "
+        "executed on fresh real objects for every budget setting crossed with every option variant; in addition, for "
+        "every budget setting, every single deviation from the always-succeeding and from the never-succeeding "
+        "adversary with 'raises' ranging over every builtin exception class with and without message; states = nodes "
         "of the answer trees, transitions = their edges; distinct = distinct (result, exception, call counts, answer "
         "kinds) observations, non-trivial = those in which the loop ran past its first environment call",
         exhaustive=not bounded,
         budgets=f"0..{top} and 'omitted' (documented default) for max_retries, max_regenerations x max_steps_per_worker, max_iterations",
         answer_alphabets={"generator": len(GEN_KINDS), "factory": len(FACTORY_KINDS), "step": len(STEP_KINDS),
                           "summariser": len(SUMMARY_KINDS), "provider_round": len(ROUND_KINDS), "tool": len(TOOL_KINDS),
-                          "completion": len(COMPLETE_KINDS)},
+                          "completion": len(COMPLETE_KINDS), "raise_flavours_in_exception_class_configurations": len(XRAISES)},
+        exception_classes=list(XCLASSES),
+        exception_class_configurations=len([c for c in cfgs if c.get("xcls")]),
         option_variants={"heal": len(HEAL_VARIANTS) * len(CHAPERONES), "swarm": len(SWARM_VARIANTS), "tools": len(TOOLS_VARIANTS)},
         configurations=len(cfgs),
         deviation_bounded_configurations=bounded_by,
@@ -871,7 +968,8 @@ def run(ctx):
             f"{len(bounded)} of {len(cfgs)} configurations (estimated more than {EXHAUSTIVE_UP_TO[ctx.tier]} non-terminating "
             "answer sequences, or limits omitted) are explored for all answer sequences with at most max_dev non-default "
             "answers (default = 'valid' / 'fresh junk' / 'worker' / 'hints' / 'no tool calls' / 'returns'; with omitted "
-            "max_iterations the default round answer is 'one call'); all other configurations completely")
+            "max_iterations the default round answer is 'one call'); the exception-class configurations for every single "
+            "deviation from both default adversaries; all other configurations completely")
     ctx.assumptions += [
         "generator / worker / provider behaviours are drawn per call from the listed answer kinds; outputs never repeat "
         "unless the 'repeat'/'same'/'' answers are chosen",
@@ -882,6 +980,9 @@ def run(ctx):
         "the exception flavour / falsy return value of the tool function is fixed per configuration (4 flavours), all "
         "other exception flavours are per-call answers",
         "with omitted limits the budget is the documented default read from the public attribute / signature",
+        "exception classes: every builtin Exception subclass (no warnings) constructible with () and with (message) -- "
+        "explored as single deviations only; two differently-classed exceptions in one run are not explored",
+        "environment callables accept any call signature; every invocation is counted, whatever its arguments",
     ]
 
 
